@@ -1,10 +1,10 @@
 """C08 — the solving loop.  Theorems: coq/Props/C08.v over the loop decisions regenerated from telingo/__init__.py.
 Correspondence S2: telingo.imain on a scripted fake Control vs the extracted Model/Loop.v on the same options, part lists,
 atom bases and result sequences (exhaustive over small option values and all result sequences of a fixed length)."""
-import itertools, json
+import itertools, json, os, subprocess
 
 PROP_FILE = 'Props/C08.v'
-GROUPS = ['imain']
+GROUPS = ['imain', 'app']
 LEAF_LEMMAS = ['loop_cond_gen_spec', 'part_selected_gen_spec', 'part_params_gen_spec', 'assume_false_gen_spec', 'loop_body_gen_spec',
                'defaults_gen_spec']
 ASSUMPTIONS = ['clingo Control is replaced by a scripted fake in the correspondence (its solve results are the quantified sequence)',
@@ -133,6 +133,46 @@ def oracle_violation(c, ia):
     return None
 
 
+OPT_VALUES = ['0', '3', '12', '-1', '-0', 'x', '1.5', '', ' 2', '+2', '1_0', '0x10', '1e3', 'None', '2 ', '--1']
+ISTOP_VALUES = ['sat', 'SAT', 'Sat', 'unsat', 'UNSAT', 'unknown', 'Unknown', 'foo', '', 'satisfiable', 'sat ']
+
+
+def option_cases(ctx):
+    """command-line option values vs the regenerated parsers (invalid values must be rejected before solving)"""
+    repo = os.environ.get('TELINGO_REPO', '/repo')
+    env = dict(os.environ, PYTHONPATH=repo, PYTHONHASHSEED='0')
+    bad, n = [], 0
+    stops = ctx.model().run(['optparse istop'])[0].split()
+    for opt in ('imin', 'imax'):
+        for val in OPT_VALUES:
+            if val == '':
+                continue      # clingo's own option parser rejects an empty value before telingo's callback is reached
+            try:
+                iv = str(int(val))
+            except ValueError:
+                iv = '-'
+            m = ctx.model().run(['optparse %s %d %s' % (opt, 1 if val == '' else 0, iv)])[0]
+            args = ['--%s=%s' % (opt, val)] + (['--imax=2'] if opt == 'imin' else [])
+            p = subprocess.run(['/venv/bin/python', '-m', 'telingo'] + args, input=b'a.\n', stdout=subprocess.PIPE, stderr=subprocess.PIPE, env=env, cwd='/', timeout=60)
+            n += 1
+            out = p.stdout.decode(errors='replace') + p.stderr.decode(errors='replace')
+            solved = 'Solving...' in out
+            clean_reject = (not solved) and p.returncode not in (0, 10, 20, 30) and 'Traceback' not in out and 'PANIC' not in out
+            got = 'accept' if (solved or (p.returncode in (0, 10, 20, 30))) else ('reject' if clean_reject else 'raises')
+            if got != m:
+                bad.append({'key': 'c08:option:%s=%s' % (opt, val), 'what': 'option --%s=%r: command line %s (exit %d), regenerated parser %s' % (opt, val, got, p.returncode, m),
+                            'input': {'option': opt, 'value': val}})
+    for val in ISTOP_VALUES:
+        want = 'accept' if val.upper() in stops else 'reject'
+        p = subprocess.run(['/venv/bin/python', '-m', 'telingo', '--istop=%s' % val, '--imax=2'], input=b'a.\n', stdout=subprocess.PIPE, stderr=subprocess.PIPE, env=env, cwd='/', timeout=60)
+        n += 1
+        out = p.stdout.decode(errors='replace') + p.stderr.decode(errors='replace')
+        got = 'accept' if 'Solving...' in out else ('reject' if ('Traceback' not in out and 'PANIC' not in out) else 'raises')
+        if got != want:
+            bad.append({'key': 'c08:option:istop=%s' % val, 'what': 'option --istop=%r: command line %s, regenerated value list %s says %s' % (val, got, stops, want), 'input': {'option': 'istop', 'value': val}})
+    return n, bad
+
+
 def run(ctx):
     cs = cases(ctx)
     res = run_cases(ctx, cs)
@@ -151,8 +191,10 @@ def run(ctx):
                 v = 'call trace differs from the model: impl %s vs model %s' % (ia[1][:12], ma[1][:12])
             cex.append({'key': 'loop:%s' % v.split(' (')[0], 'what': v, 'input': c, 'impl': ia, 'model': ma})
     cex.sort(key=lambda x: (len(x['input']['results']), json.dumps(x['input'], sort_keys=True)))
+    nopt, optbad = option_cases(ctx)
+    cex += optbad
     distinct = len({json.dumps((c['imin'], c['imax'], c['istop'], c['results'])) for c, _, _, _ in res})
-    cov = {'evaluations': len(res), 'distinct_nontrivial': distinct, 'exhaustive': True,
+    cov = {'evaluations': len(res) + nopt, 'distinct_nontrivial': distinct, 'exhaustive': True, 'option_value_cases': nopt,
            'rule': 'exhaustive: imin in {absent,0,1,2,3,L,L+2} x imax in {absent,None,0,1,2,3,L+3} x istop in {absent,SAT,UNSAT,UNKNOWN} x all 3^L result '
                    'sequences (L=%d); part list and atom base variant drawn from the seed; every case is distinct; non-trivial = at least one solve call '
                    'is decided by the loop condition (all are)' % cs[0]['L'],
@@ -164,5 +206,8 @@ def run(ctx):
 
 def replay(ctx, payload):
     c = payload['input']
+    if 'option' in c:
+        n, bad = option_cases(ctx)
+        return any(b['input'] == c for b in bad)
     r = run_cases(ctx, [c])[0]
     return bool(oracle_violation(c, r[1]) or not r[3])
